@@ -29,7 +29,8 @@ ObsOK(o) ==
   /\ o.nrelays = Cardinality({r \in RSet : view'[r].known})
   /\ ~o.exc
 PropsOK == ViewIsDoc' /\ SerialsDistinct' /\ (\A r \in RSet : (view[r].known /\ view'[r].known) => view'[r].serial = view[r].serial)
-Step(e) == e.a = "Document" /\ Document(DocOf(e))
+Step(e) == \/ e.a = "Document" /\ Document(DocOf(e))
+           \/ e.a = "Lookup" /\ Lookup /\ DocOf(e) = doc
 TInit == Init /\ tid \in 1..Len(Traces) /\ l = 1
 TNext ==
   /\ l <= Len(Traces[tid].steps)
